@@ -511,3 +511,70 @@ func TestC01CrossTalk(t *testing.T) {
 		}
 	})
 }
+
+// TestC01SequenceNumbers: a reply is matched to its call by sequence number, so calls that are
+// outstanding at the same time on one session carry different numbers - however many
+// goroutines launch them at once.
+func TestC01SequenceNumbers(t *testing.T) {
+	rec := vt.NewRec(t, "C01", "sequence-numbers", "2-16 goroutines launch 200-2000 AsyncCalls (and, interleaved, pushes) each on ONE session at the same time against a remote that only drains the connection, so every call stays outstanding; oracle: the sequence numbers of the outstanding calls are pairwise distinct (a shared number hands one call the other's reply); every case non-trivial; distinct by case")
+	protos := vt.StreamProtos()
+	rapid.Check(t, func(t *rapid.T) {
+		vt.Init()
+		proto := rapid.SampledFrom(protos).Draw(t, "proto")
+		g := rapid.IntRange(2, 16).Draw(t, "goroutines")
+		n := rapid.SampledFrom([]int{200, 800, 2000}).Draw(t, "calls")
+		pushEvery := rapid.SampledFrom([]int{0, 3, 7}).Draw(t, "pushevery")
+		rec.Case(fmt.Sprintf("%s|%d|%d|%d", proto.Name, g, n, pushEvery), true, "proto="+proto.Name)
+		if rec.WantSample() {
+			rec.Sample(map[string]interface{}{"proto": proto.Name, "goroutines": g, "calls_each": n, "push_every": pushEvery})
+		}
+		w := vt.NewWorld()
+		defer w.Close()
+		cli := w.Peer(erpc.PeerConfig{})
+		pair := vt.NewPair()
+		sess, stat := cli.ServeConn(pair.A, proto.Fn)
+		if !stat.OK() {
+			t.Fatalf("ServeConn: %v", stat)
+		}
+		go func() { // the remote only drains
+			buf := make([]byte, 64<<10)
+			for {
+				if _, err := pair.B.Read(buf); err != nil {
+					return
+				}
+			}
+		}()
+		seqs := make([][]int32, g)
+		start := make(chan struct{})
+		var wg sync.WaitGroup
+		for gi := 0; gi < g; gi++ {
+			wg.Add(1)
+			go func(gi int) {
+				defer wg.Done()
+				ch := make(chan erpc.CallCmd, n+1)
+				out := make([]int32, 0, n)
+				<-start
+				for i := 0; i < n; i++ {
+					if pushEvery > 0 && i%pushEvery == 0 {
+						sess.Push("/sink/note", nil)
+					}
+					cmd := sess.AsyncCall("/sink/do", nil, nil, ch)
+					out = append(out, cmd.Output().Seq())
+				}
+				seqs[gi] = out
+			}(gi)
+		}
+		close(start)
+		wg.Wait()
+		pair.Cut()
+		seen := make(map[int32][2]int, g*n)
+		for gi, out := range seqs {
+			for i, s := range out {
+				if prev, dup := seen[s]; dup {
+					t.Fatalf("C01 violated: two calls outstanding at the same time on one session carry sequence number %d (goroutine %d call %d and goroutine %d call %d): the reply to one is handed to the other", s, prev[0], prev[1], gi, i)
+				}
+				seen[s] = [2]int{gi, i}
+			}
+		}
+	})
+}
